@@ -16,7 +16,7 @@ ASSUMPTIONS = simlib.SIM_ASSUMPTIONS + [
 ]
 
 
-def h_events(cx, stations, station_of, H, sched, mr, constraint, n_recompute, req=None, json_resume=False):
+def h_events(cx, stations, station_of, H, sched, mr, constraint, n_recompute, req=None, json_resume=False, reuse_queue=False):
     env.install(cx)
     if json_resume:
         env.install_json(cx)
@@ -55,7 +55,21 @@ def h_events(cx, stations, station_of, H, sched, mr, constraint, n_recompute, re
         from acnportal.algorithms import SortedSchedulingAlgo, first_come_first_served
 
         algo = SortedSchedulingAlgo(first_come_first_served)
-    sim = make_sim(cx, net, algo, evs, recompute_at=rts)
+    if reuse_queue:
+        # the EventQueue object has already served an earlier, unrelated simulation (three periods on another network) and was
+        # drained by it; it is refilled through add_events() and handed to the simulator that is judged
+        from acnportal.algorithms import UncontrolledCharging
+
+        net0 = A.ChargingNetwork()
+        net0.register_evse(A.EVSE("W", max_rate=16), 208, 0)
+        q = A.EventQueue([A.PluginEvent(0, A.EV(0, 3, 1.0, "W", "warm", A.Battery(50, 0, 7)))])
+        A.Simulator(net0, UncontrolledCharging(), q, simlib.START, period=5, verbose=False).run()
+        cx.check("warm-up queue drained", q.empty())
+        q.add_events([A.PluginEvent(ev.arrival, ev) for ev in evs] + [A.RecomputeEvent(t) for t in rts])
+        sim = A.Simulator(net, algo, q, simlib.START, period=5, verbose=False)
+        cx.tag("queue_object_reused")
+    else:
+        sim = make_sim(cx, net, algo, evs, recompute_at=rts)
     sim_ref[0] = sim
     if json_resume:
         import warnings
@@ -178,6 +192,7 @@ def jobs(tier):
             (S2, (0, 1), 3, "scripted", None, True, 0, "sym"),
             (S2, (0, 0), 3, "uncontrolled", 1, False, 0, "sym"),
             (S2, (0, 1), 3, "scripted", 1, False, 0, None, True),
+            (S2, (0, 0), 3, "scripted", 1, False, 0, None, False, True),
         ]
     else:
         cfgs = []
@@ -191,13 +206,16 @@ def jobs(tier):
                         cfgs.append((st, so, 3, sched, mr, st is S2, nrec, "sym"))
                     if sched == "scripted" and mr == 1 and nrec == 0:
                         cfgs.append((st, so, 4 if len(so) < 3 else 3, sched, mr, st is S2, nrec, None, True))
+                    if sched in ("scripted", "uncontrolled") and mr == 1 and len(so) < 3:
+                        cfgs.append((st, so, 4, sched, mr, st is S2, nrec, None, False, True))
     for cfg in cfgs:
         st, so, H, sched, mr, cons, nrec = cfg[:7]
         req = cfg[7] if len(cfg) > 7 else None
         jr = len(cfg) > 8 and cfg[8]
-        name = "events[n=%d,sess=%s,H=%d,%s,mr=%s,cons=%s,rec=%d%s%s]" % (len(st), "".join(map(str, so)), H, sched, mr, int(cons), nrec, ",req=sym" if req else "", ",interrupt+json+resume" if jr else "")
-        js.append(Job(name, h_events, dict(stations=st, station_of=so, H=H, sched=sched, mr=mr, constraint=cons, n_recompute=nrec, req=req, json_resume=jr),
-                      functions=simlib.SIM_FUNCS, expect_tags=("terminated", "interrupted_and_reloaded") if jr else ("terminated",), max_paths=60000, timeout=3000,
+        rq = len(cfg) > 9 and cfg[9]
+        name = "events[n=%d,sess=%s,H=%d,%s,mr=%s,cons=%s,rec=%d%s%s%s]" % (len(st), "".join(map(str, so)), H, sched, mr, int(cons), nrec, ",req=sym" if req else "", ",interrupt+json+resume" if jr else "", ",reused_queue" if rq else "")
+        js.append(Job(name, h_events, dict(stations=st, station_of=so, H=H, sched=sched, mr=mr, constraint=cons, n_recompute=nrec, req=req, json_resume=jr, reuse_queue=rq),
+                      functions=simlib.SIM_FUNCS, expect_tags=("terminated", "interrupted_and_reloaded") if jr else (("terminated", "queue_object_reused") if rq else ("terminated",)), max_paths=60000, timeout=3000,
                       bounds=dict(stations=len(st), sessions=len(so), horizon=H, recompute_events=nrec, scheduler=sched, max_recompute=mr, requested_energy_kWh=("(0,2] symbolic: sessions may be fully charged before they leave" if req else 50000),
                                   note="event times symbolic integers in [0,H]; every interleaving inside the bound is one path"),
                       cost=(10 ** len(so)) * (H ** 2) * (1 + nrec * H)))
